@@ -189,8 +189,12 @@ def _rand_elem(rng, dtype, ndim, shape):
         bshape = [3] * ndim
     elif r < 0.5:
         bshape = [rng.choice([1, 2, 3, 4, 5]) for _ in range(ndim)]
-    elif r < 0.65:
+    elif r < 0.58:
         bshape = [s + rng.choice([0, 1, 2, 3]) for s in shape]          # as large as / larger than the image
+    elif r < 0.65:
+        # on one axis the half-width exceeds the whole image axis (every offset on that side leaves the image)
+        ax = rng.randrange(ndim)
+        bshape = [(2 * s + rng.choice([2, 3, 4, 7])) if i == ax else rng.choice([1, 2, 3]) for i, s in enumerate(shape)]
     else:
         bshape = [rng.choice([1, 2, 3]) for _ in range(ndim)]
     n = int(np.prod(bshape))
